@@ -324,7 +324,8 @@ Definition dtoa_f32 (b : N) : str :=
   if f_is_zero b then (if f_sign b then [45; 48; 46; 48] else [48; 46; 48])
   else
     let '(ds, k) := grisu2 b in
-    (if f_sign b then [45] else []) ++ prettify ds k.
+    (* `if value < 0.0`: false for a NaN whatever its sign bit *)
+    (if f_sign b && negb (f_is_nan b) then [45] else []) ++ prettify ds k.
 
 (* ---------------------------------------------------------------- dtoa-short restrict_prec *)
 
